@@ -1,6 +1,6 @@
 """C02, C05, C08 (and the head clauses of C03): one RPC end to end. Specs: Call (Contract), StatusCodec,
 FramingContract, MC_Negotiation (decision table export), Trace_Call (trace validation)."""
-import json, random, time
+import json, os, random, time
 from . import core, simple, decomp
 from .core import ToolError
 
@@ -452,6 +452,7 @@ def check(prop, tier, seed):
     if prop == 'C05':
         from . import p_web
         p_web.bridge_family(prop, tier, seed, verdict, cov, tag)
+        single_feature_family(prop, tier, seed, verdict, cov, mc)
     if prop == 'C08':
         from . import p_meta
         p_meta.add_families(prop, tier, seed, verdict, cov, mc, tag)
@@ -464,9 +465,63 @@ def check(prop, tier, seed):
 
 def replay(prop, path):
     core.build_harness()
-    stims = [r['stim'] for r in core.read_ndjson(path) if r.get('e') == 'reset']
+    rows = core.read_ndjson(path)
+    stims = [r['stim'] for r in rows if r.get('e') == 'reset' and not str(r.get('lab', '')).startswith('vhf:')]
     verdict = core.Verdict(prop)
     cov = {'traces_validated_against_impl': 0, 'samples': []}
-    ev, p = simple.run_lab('call', stims, f'{prop}_replay', 'replay', annotate=decomp.annotate)
-    simple.validate(prop, 'Trace_Call', verdict, ev, p, 'replay', cov, clause_filter=clause_filter(prop), harness_clauses=HARNESS)
+    if stims:
+        ev, p = simple.run_lab('call', stims, f'{prop}_replay', 'replay', annotate=decomp.annotate)
+        simple.validate(prop, 'Trace_Call', verdict, ev, p, 'replay', cov, clause_filter=clause_filter(prop), harness_clauses=HARNESS)
+    replay_vhf(prop, rows, verdict, cov)
     return verdict.finish()
+
+
+def run_vhf(enc, stims, wd, name):
+    """build harness_feat with the one feature `enc` and run raw-mode stimuli through it; returns (events, trace path)"""
+    import subprocess, shutil
+    feat = os.path.join(core.VERIF, 'harness_feat')
+    lock = os.path.join(feat, 'Cargo.lock')
+    if not os.path.exists(lock):
+        shutil.copy(os.path.join(core.HARNESS, 'Cargo.lock') if os.path.exists(os.path.join(core.HARNESS, 'Cargo.lock')) else '/repo/Cargo.lock', lock)
+    env = dict(os.environ, CARGO_NET_OFFLINE='true', CARGO_TARGET_DIR=os.path.join(feat, 'target', enc))
+    p = subprocess.run(['cargo', 'build', '--offline', '-q', '--features', enc], cwd=feat, env=env, capture_output=True, text=True)
+    if p.returncode != 0:
+        raise ToolError(f'harness_feat --features {enc}: build failed\n' + p.stderr[-3000:])
+    os.makedirs(wd, exist_ok=True)
+    sp, tp = (os.path.join(wd, f'{name}.{x}.ndjson') for x in ('stim', 'trace'))
+    core.write_ndjson(sp, stims)
+    p = subprocess.run([os.path.join(feat, 'target', enc, 'debug', 'vhf'), sp, tp], capture_output=True, text=True, timeout=900)
+    if p.returncode != 0:
+        raise ToolError(f'vhf ({enc}) exited {p.returncode}: ' + p.stderr[-2000:])
+    ev = core.read_ndjson(tp)
+    decomp.annotate(ev)
+    core.write_ndjson(tp, ev)
+    return ev, tp
+
+
+def replay_vhf(prop, rows, verdict, cov):
+    """replay of runs recorded by harness_feat (reset rows whose lab is vhf:<enc>)"""
+    for enc in ('gzip', 'deflate', 'zstd'):
+        stims = [r['stim'] for r in rows if r.get('e') == 'reset' and r.get('lab') == f'vhf:{enc}']
+        if stims:
+            ev, tp = run_vhf(enc, stims, os.path.join(core.WORK, f'{prop}_replay'), f'only_{enc}')
+            simple.validate(prop, 'Trace_Call', verdict, ev, tp, f'only_{enc}', cov, clause_filter=clause_filter(prop), harness_clauses=HARNESS)
+
+
+def single_feature_family(prop, tier, seed, verdict, cov, mc):
+    """The negotiation table again, in builds of tonic that have exactly ONE compression feature (harness_feat, built three times):
+    the main harness has every cargo feature on, which masks whatever is conditioned on a single one.  Rows are restricted to
+    servers configured with that one encoding; requests may still name or offer the others (unknown to such a build)."""
+    rows = negotiation_stims(seed, tier, mc)
+    tag = f'{prop}_{tier}'
+    wd = os.path.join(core.WORK, tag)
+    os.makedirs(wd, exist_ok=True)
+    for enc in ('gzip', 'deflate', 'zstd'):
+        stims = [dict(s, **{'class': f'only_{enc}_' + s['table']['class']}) for s in rows
+                 if set(s['server']['send']) <= {enc} and set(s['server']['accept']) <= {enc} and s['raw']['comp'] in ('', enc)]
+        stims = stims[:400 if tier == 'thorough' else 120]
+        if len(stims) < 30:
+            raise ToolError(f'single-feature family {enc}: only {len(stims)} rows')
+        ev, tp = run_vhf(enc, stims, wd, f'only_{enc}')
+        simple.validate(prop, 'Trace_Call', verdict, ev, tp, f'only_{enc}', cov, clause_filter=clause_filter(prop), harness_clauses=HARNESS)
+    cov['samples'].append({'family': 'single_feature_builds', 'stimulus': 'the negotiation rows whose server is configured with one encoding, in builds with only that cargo feature'})
